@@ -71,11 +71,13 @@ struct SIMDVector<int32_t,simd_abi::avx512> {
         int maska[Size];
         mask_to_array(mask,maska);
         value = _mm512_setzero_si512();
+        scalar_value_type vals[Size] = {};
         for (FASTOR_INDEX i=0; i<Size; ++i) {
             if (maska[i] == -1) {
-                ((scalar_value_type*)&value)[Size - i - 1] = a[Size - i - 1];
+                vals[Size - i - 1] = a[Size - i - 1];
             }
         }
+        std::memcpy(&value, vals, sizeof(value));
         unused(Aligned);
 #endif
     }
@@ -89,17 +91,18 @@ struct SIMDVector<int32_t,simd_abi::avx512> {
         // perhaps very inefficient but they never get used
         int maska[Size];
         mask_to_array(mask,maska);
+        scalar_value_type vals[Size]; std::memcpy(vals, &value, sizeof(value));
         for (FASTOR_INDEX i=0; i<Size; ++i) {
             if (maska[i] == -1) {
-                a[Size - i - 1] = ((const scalar_value_type*)&value)[Size - i - 1];
+                a[Size - i - 1] = vals[Size - i - 1];
             }
         }
         unused(Aligned);
 #endif
     }
 
-    FASTOR_INLINE int32_t operator[](FASTOR_INDEX i) const {return reinterpret_cast<const int32_t*>(&value)[i];}
-    FASTOR_INLINE int32_t operator()(FASTOR_INDEX i) const {return reinterpret_cast<const int32_t*>(&value)[i];}
+    FASTOR_INLINE int32_t operator[](FASTOR_INDEX i) const {int32_t vals[Size]; std::memcpy(vals, &value, sizeof(value)); return vals[i];}
+    FASTOR_INLINE int32_t operator()(FASTOR_INDEX i) const {int32_t vals[Size]; std::memcpy(vals, &value, sizeof(value)); return vals[i];}
 
     FASTOR_INLINE void set(int32_t num) {
         value = _mm512_set1_epi32(num);
@@ -233,7 +236,7 @@ struct SIMDVector<int32_t,simd_abi::avx512> {
 };
 
 FASTOR_HINT_INLINE std::ostream& operator<<(std::ostream &os, SIMDVector<int32_t,simd_abi::avx512> a) {
-    const int32_t *value = (int32_t*) &a.value;
+    int32_t value[sizeof(a.value)/sizeof(int32_t)]; std::memcpy(value, &a.value, sizeof(a.value));
     os << "["
        << value[0]  << " " << value[1]  << " "
        << value[2]  << " " << value[3]  << " "
@@ -349,9 +352,12 @@ FASTOR_INLINE SIMDVector<int32_t,simd_abi::avx512> abs(const SIMDVector<int32_t,
 #ifdef FASTOR_HAS_AVX512_ABS
     out.value = _mm512_abs_epi32(a.value);
 #else
+    int32_t av[16], ov[16];
+    a.store(av,false);
     for (FASTOR_INDEX i=0UL; i<16UL; ++i) {
-       ((int32_t*)&out.value)[i] = std::abs(((int32_t*)&a.value)[i]);
+       ov[i] = std::abs(av[i]);
     }
+    out.load(ov,false);
 #endif
     return out;
 }
@@ -423,11 +429,13 @@ struct SIMDVector<int32_t,simd_abi::avx> {
         int maska[Size];
         mask_to_array(mask,maska);
         value = _mm256_setzero_si256();
+        scalar_value_type vals[Size] = {};
         for (FASTOR_INDEX i=0; i<Size; ++i) {
             if (maska[i] == -1) {
-                ((scalar_value_type*)&value)[Size - i - 1] = a[Size - i - 1];
+                vals[Size - i - 1] = a[Size - i - 1];
             }
         }
+        std::memcpy(&value, vals, sizeof(value));
         unused(Aligned);
 #endif
     }
@@ -441,17 +449,18 @@ struct SIMDVector<int32_t,simd_abi::avx> {
         // perhaps very inefficient but they never get used
         int maska[Size];
         mask_to_array(mask,maska);
+        scalar_value_type vals[Size]; std::memcpy(vals, &value, sizeof(value));
         for (FASTOR_INDEX i=0; i<Size; ++i) {
             if (maska[i] == -1) {
-                a[Size - i - 1] = ((const scalar_value_type*)&value)[Size - i - 1];
+                a[Size - i - 1] = vals[Size - i - 1];
             }
         }
         unused(Aligned);
 #endif
     }
 
-    FASTOR_INLINE int32_t operator[](FASTOR_INDEX i) const {return reinterpret_cast<const int32_t*>(&value)[i];}
-    FASTOR_INLINE int32_t operator()(FASTOR_INDEX i) const {return reinterpret_cast<const int32_t*>(&value)[i];}
+    FASTOR_INLINE int32_t operator[](FASTOR_INDEX i) const {int32_t vals[Size]; std::memcpy(vals, &value, sizeof(value)); return vals[i];}
+    FASTOR_INLINE int32_t operator()(FASTOR_INDEX i) const {int32_t vals[Size]; std::memcpy(vals, &value, sizeof(value)); return vals[i];}
 
     FASTOR_INLINE void set(int32_t num) {
         value = _mm256_set1_epi32(num);
@@ -570,7 +579,7 @@ struct SIMDVector<int32_t,simd_abi::avx> {
 };
 
 FASTOR_HINT_INLINE std::ostream& operator<<(std::ostream &os, SIMDVector<int32_t,simd_abi::avx> a) {
-    const int32_t *value = (int32_t*) &a.value;
+    int32_t value[sizeof(a.value)/sizeof(int32_t)]; std::memcpy(value, &a.value, sizeof(a.value));
     os << "[" << value[0] <<  " " << value[1] << " " << value[2] << " " << value[3]
        << " " << value[4] <<  " " << value[5] << " " << value[6] << " " << value[7] << "]\n";
     return os;
@@ -673,7 +682,7 @@ FASTOR_INLINE SIMDVector<int32_t,simd_abi::avx> abs(const SIMDVector<int32_t,sim
     // out.value = _mm256_castsi128_si256(lo);
     // out.value = _mm256_insertf128_si256(out.value,hi,0x1);
 
-    int32_t *value = (int32_t*) &a.value;
+    int32_t value[sizeof(a.value)/sizeof(int32_t)]; std::memcpy(value, &a.value, sizeof(a.value));
     for (int32_t i=0; i<8; ++i) {
         value[i] = std::abs(value[i]);
     }
@@ -748,11 +757,13 @@ struct SIMDVector<int32_t,simd_abi::sse> {
         int maska[Size];
         mask_to_array(mask,maska);
         value = _mm_setzero_si128();
+        scalar_value_type vals[Size] = {};
         for (FASTOR_INDEX i=0; i<Size; ++i) {
             if (maska[i] == -1) {
-                ((scalar_value_type*)&value)[Size - i - 1] = a[Size - i - 1];
+                vals[Size - i - 1] = a[Size - i - 1];
             }
         }
+        std::memcpy(&value, vals, sizeof(value));
         unused(Aligned);
 #endif
     }
@@ -766,17 +777,18 @@ struct SIMDVector<int32_t,simd_abi::sse> {
         // perhaps very inefficient but they never get used
         int maska[Size];
         mask_to_array(mask,maska);
+        scalar_value_type vals[Size]; std::memcpy(vals, &value, sizeof(value));
         for (FASTOR_INDEX i=0; i<Size; ++i) {
             if (maska[i] == -1) {
-                a[Size - i - 1] = ((const scalar_value_type*)&value)[Size - i - 1];
+                a[Size - i - 1] = vals[Size - i - 1];
             }
         }
         unused(Aligned);
 #endif
     }
 
-    FASTOR_INLINE int32_t operator[](FASTOR_INDEX i) const {return reinterpret_cast<const int32_t*>(&value)[i];}
-    FASTOR_INLINE int32_t operator()(FASTOR_INDEX i) const {return reinterpret_cast<const int32_t*>(&value)[i];}
+    FASTOR_INLINE int32_t operator[](FASTOR_INDEX i) const {int32_t vals[Size]; std::memcpy(vals, &value, sizeof(value)); return vals[i];}
+    FASTOR_INLINE int32_t operator()(FASTOR_INDEX i) const {int32_t vals[Size]; std::memcpy(vals, &value, sizeof(value)); return vals[i];}
 
     FASTOR_INLINE void set(int32_t num) {
         value = _mm_set1_epi32(num);
@@ -875,7 +887,7 @@ struct SIMDVector<int32_t,simd_abi::sse> {
 };
 
 FASTOR_HINT_INLINE std::ostream& operator<<(std::ostream &os, SIMDVector<int32_t,simd_abi::sse> a) {
-    const int32_t *value = (int32_t*) &a.value;
+    int32_t value[sizeof(a.value)/sizeof(int32_t)]; std::memcpy(value, &a.value, sizeof(a.value));
     os << "[" << value[0] <<  " " << value[1] << " " << value[2] << " " << value[3] << "]\n";
     return os;
 }
